@@ -366,10 +366,13 @@ P("C01", "Every tree of a built index covers exactly the live items, each once",
   "Bounded symbolic execution: one step of each build-pipeline function from an arbitrary invariant-satisfying pre-state within the shape family; the composition over whole builds is a paper argument.",
   level_note="Trusted: rustc MIR semantics, z3, the model table (bit-set bitmaps, store, TmpNodes as put/remove/remap lists, fresh side decisions), the invariant Inv and the step contracts of DESIGN.md section 3; the induction over histories is not machine-checked.",
   stubs_and_models=["E2 model table (lib/mirsym/models.py, world.py)"],
-  functions_encoded=["Writer::insert_items_in_file", "Writer::fit_in_descendant", "ConcurrentNodeIds::new", "ConcurrentNodeIds::next",
-                     "randomly_split_children", "BuildOption::cancelled", "NodeId::tree/item"],
-  bounds={"forest": "1 tree, depth <= 2, <= 6 items", "universe": "16 ids", "split_after": "1..=3"},
-  outside_claim=["composition over build", "rayon (C13)", "batching with > 200 leaves (C14)", "real roaring/LMDB behaviour"],
+  functions_encoded=["Writer::build", "Writer::item_indices", "Writer::reset_and_retrieve_updated_items", "Writer::clear_db_and_create_a_single_leaf", "Writer::used_tree_node",
+                     "target_n_trees", "Writer::delete_extra_trees", "Writer::delete_tree", "Writer::delete_items_from_trees", "Writer::delete_items_in_file",
+                     "Writer::insert_items_in_current_trees", "Writer::insert_items_in_tree", "Writer::insert_items_in_file", "Writer::incremental_index_large_descendants",
+                     "Writer::make_tree_in_file", "Writer::fit_in_descendant", "ConcurrentNodeIds::new", "ConcurrentNodeIds::next",
+                     "randomly_split_children", "split_imbalance", "BuildOption::cancelled", "NodeId::tree/item"],
+  bounds={"steps": "1 tree, depth <= 2, <= 6 items, 16-id universe, split_after 1..=3", "histories": "2-3 rounds on <= 5 concrete items; <= 10 (40) states extended per round"},
+  outside_claim=["histories beyond the bounds (the general composition remains a paper argument)", "rayon interleavings (C13)", "batching with > 200 leaves (C14)", "real roaring/LMDB behaviour"],
   assumptions=["Inv(F, I) as in DESIGN.md section 3"])
 P("C13", "Parallel tree updates never collide, whatever the thread schedule",
   "symbolic execution of the rustc MIR of ConcurrentNodeIds::new/next into per-path thread summaries (atomic accesses as events), then one SMT formula over symbolic timestamps and reads-from relations decided by z3 for all schedules at once",
@@ -399,12 +402,13 @@ P("C02", "Unlimited-budget search returns the exact nearest neighbours",
   assumptions=["Inv(F, I)"])
 P("C10", "A build that fails or is cancelled reports it and can be rolled back",
   "symbolic execution of the rustc MIR of the build pipeline's tree steps under a symbolic cancellation point and a symbolic write fault (z3)",
-  "Claimed narrowly: every encoded build step, under every cancellation point and every temp-file fault point, never panics and returns only Ok, the cancellation error (after a true poll) or the injected error. Whole-build atomicity, rollback by abort and temp-file/descriptor hygiene are outside the claim.",
+  "Every encoded build step under every cancellation point and temp-file fault point, and Writer::build as a whole (executed from its MIR over small histories) under every cancellation point: never panics, returns only Ok, the cancellation error (after a true poll) or the injected error, and never Ok over a database that violates the build post-condition. Rollback by abort (LMDB), database-full faults inside build() and temp-file/descriptor hygiene are outside the claim.",
   level_note="Trusted: rustc MIR, z3, the model table; the cancellation callback is monotone (once true, always true) as the property states. 'Never success over a half-built forest' for the whole build, rollback (LMDB) and temp files (OS) are NOT claimed.",
   stubs_and_models=["cancel callback = (poll number >= n) with n symbolic", "TmpNodes::put fails at its k-th call with k symbolic"],
-  functions_encoded=["Writer::insert_items_in_file", "Writer::delete_items_in_file", "BuildOption::cancelled"],
-  bounds={"forest": "as C01", "cancel/fault point": "any u32"},
-  outside_claim=["whole-build result under faults", "abort/rollback (LMDB)", "temp files and descriptors (OS)", "LMDB MapFull at arbitrary writes of build()"],
+  functions_encoded=["Writer::build", "Writer::insert_items_in_current_trees", "Writer::insert_items_in_tree", "Writer::incremental_index_large_descendants",
+                     "Writer::delete_items_from_trees", "Writer::insert_items_in_file", "Writer::delete_items_in_file", "Writer::make_tree_in_file", "BuildOption::cancelled"],
+  bounds={"forest": "as C01", "histories": "2-3 rounds, <= 5 items, single tree", "cancel/fault point": "any u32"},
+  outside_claim=["abort/rollback (LMDB)", "temp files and descriptors (OS)", "LMDB MapFull at arbitrary writes of build()", "histories beyond the bounds"],
   assumptions=["monotone cancellation callback"])
 P("C20", "Degenerate data never breaks a build or a search",
   "bounded model checking (Kani/CBMC) of the metric primitives on all f32 bit patterns incl. NaN/inf; MIR symbolic execution (z3) of make_tree_in_file and nns_by_leaf with side decisions, distances and margins left completely unconstrained (so every degenerate geometry is among the solver's choices)",
